@@ -46,11 +46,14 @@ META = {
     "trusted_base": [
         "message-level abstraction of Fix/Resend.v: a journal row is (number, MsgType, SendingTime, flat body fields); "
         "Codec.decode/encode of codec-produced frames is taken to be the identity on that view (validated on every case here; C01)",
-        "noreply_msgs literal and the state numbers are hand-copied / taken from GenEnums; every session type is a journal slot here",
+        "the set of names in noreply_msgs is hand-copied into Fix/Resend.v (no GenConst translator yet); their FMsg values and the "
+        "ConnectionState numbers are read from the regenerated GenEnums; every session message type is a journal slot here, so a "
+        "changed set surfaces as a disagreement",
         "SQLite journal modelled as a keyed row list with a stored counter (C13 validates the byte-level journal)",
     ],
     "assumptions": [
-        "journal rows are frames produced by this codec (canonical 34, body tags canonical decimal and distinct from the header tags)",
+        "journal rows are frames produced by this codec (canonical 34, body tags canonical decimal and distinct from the header tags), "
+        "unique per number, all below next_num_out, stored counter = next_num_out - 1 (C05/C13 invariants; hypotheses journal_ok / NoDup)",
         "single task: nothing else sends while the request is handled (C14 covers interleavings)",
         "acceptor role (AsyncFIXDummyServer); the send gates of an initiator are not reachable from the resend handler",
     ],
@@ -240,8 +243,9 @@ class Env:
         return Adapter.session(self.conn)
 
     def rows(self):
+        from asyncfix.message import MessageDirection
         out = []
-        for seq, raw, direction, sid in self.journaler.get_all_msgs(direction=__import__("asyncfix").message.MessageDirection.OUTBOUND):
+        for seq, raw, direction, sid in self.journaler.get_all_msgs(direction=MessageDirection.OUTBOUND):
             out.append(row_of_frame(raw, seq))
         return out                      # rowid order
 
@@ -525,9 +529,9 @@ def classify(case, obs):
     nout = pre["nout"]
     out = []
     if b is None or e is None or not (-2 ** 63 <= b <= INT64_MAX) or not (-2 ** 63 <= e <= INT64_MAX):
-        return ["C06-request-unparsable"] if pre["state"] != ST["AWAITING"] else []
+        return ["C06-request-unparsable"]
     if b <= 0:
-        return ["C06-begin-nonpositive"] if pre["state"] != ST["AWAITING"] else []
+        return ["C06-begin-nonpositive"]
     if b > nout:
         return ["C06-begin-beyond"]
     hi = INT64_MAX if e == 0 else e
@@ -740,10 +744,55 @@ def confirm_witnesses(ctx):
     ctx.extra["refuted_witnesses_on_implementation"] = out
 
 
+AUDITED = {"_process_resend", "send_msg", "set_seq_num", "persist_msg", "recover_messages", "should_replay"}
+
+
+def coverage_audit(ctx, cases):
+    """Thorough tier: which lines of the anchored functions did the correspondence cases execute (information only)."""
+    import dis
+    import inspect
+    from asyncfix.connection import AsyncFIXConnection
+    from asyncfix.journaler import Journaler
+    funcs = [AsyncFIXConnection._process_resend, AsyncFIXConnection.send_msg, Journaler.set_seq_num,
+             Journaler.persist_msg, Journaler.recover_messages]
+    want = {}
+    for fn in funcs:
+        code = fn.__code__
+        lines = {ln for _, ln in dis.findlinestarts(code) if ln is not None and ln != code.co_firstlineno}
+        want[(os.path.basename(code.co_filename), code.co_name)] = lines
+    seen = {k: set() for k in want}
+
+    def tracer(frame, event, arg):
+        key = (os.path.basename(frame.f_code.co_filename), frame.f_code.co_name)
+        if key not in seen:
+            return None
+
+        def local(fr, ev, a):
+            if ev == "line":
+                seen[key].add(fr.f_lineno)
+            return local
+        return local
+
+    sys.settrace(tracer)
+    try:
+        for case in cases:
+            try:
+                run_case(case)
+            except Exception:
+                pass
+    finally:
+        sys.settrace(None)
+    ctx.extra["anchored_lines_unexecuted"] = {"%s:%s" % k: sorted(want[k] - seen[k]) for k in want}
+    ctx.extra["anchored_lines_executed"] = {"%s:%s" % k: len(want[k] & seen[k]) for k in want}
+
+
 def run(ctx):
     confirm_witnesses(ctx)
     cases = [w[0] for w in WITNESSES.values()] + generate(ctx)
     evaluate(ctx, cases)
+    if ctx.tier == "thorough":
+        coverage_audit(ctx, [w[0] for w in WITNESSES.values()] + cases_for_journal(SHOWCASE[0])[::7]
+                       + cases_for_journal(SHOWCASE[2])[::5] + malformed_cases(ctx.rng, 60))
 
 
 def search(ctx, cases):
